@@ -16,6 +16,8 @@ pub struct Known {
     pub entries: Vec<String>,
     pub truth: Option<String>,
     pub tag: Option<String>,
+    /// substring that must occur in the violation's detail (`+` stands for a space)
+    pub detail: Option<String>,
     pub text: String,
 }
 
@@ -43,6 +45,7 @@ pub fn load(path: &str) -> Result<Vec<Known>, String> {
             entries: Vec::new(),
             truth: None,
             tag: None,
+            detail: None,
             text,
         };
         for kv in fields.split_whitespace() {
@@ -56,6 +59,7 @@ pub fn load(path: &str) -> Result<Vec<Known>, String> {
                 "entry" => k.entries = val.split(',').map(|s| s.to_string()).collect(),
                 "truth" => k.truth = Some(val.to_string()),
                 "tag" => k.tag = Some(val.to_string()),
+                "detail" => k.detail = Some(val.replace('+', " ")),
                 other => return Err(format!("{path}:{}: unknown field `{other}`", ln + 1)),
             }
         }
@@ -108,4 +112,5 @@ pub fn matches(k: &Known, case: &Case, v: &Violation) -> bool {
         && (k.entries.is_empty() || k.entries.iter().any(|e| v.entry.contains(e.as_str())))
         && k.truth.as_ref().map_or(true, |t| *t == v.truth)
         && k.tag.as_ref().map_or(true, |t| has_tag(case, t))
+        && k.detail.as_ref().map_or(true, |d| v.detail.contains(d.as_str()))
 }
